@@ -75,6 +75,12 @@ Theorem contiguous_slice_length {A} (l:list A) (a b : Z) :
 Proof. exact (SliceContig.contiguous_slice_length l a b). Qed.
 Print Assumptions contiguous_slice_length.
 
+(* STEP -1 from position -1 down past the first position (-length - 1): the sequence reversed *)
+Theorem reversed_slice {A} (l:list A) :
+  slice_list l (-1) (- Z.of_nat (length l) - 1) (-1) = rev l.
+Proof. exact (SliceContig.reversed_slice l). Qed.
+Print Assumptions reversed_slice.
+
 (* the built-ins on evaluated arguments ARE these list functions, for lists, strings (code points) and byte strings *)
 Theorem len_of_list (rec : list positive -> heap -> world -> task -> out) sp l ip h w :
   runG rec value ip h w (bi_len sp [VList l]) = DoneG h w (inl (VInt (Z.of_nat (length l)))) 0.
